@@ -306,6 +306,33 @@ def check(run, replay=None):
     ncase = 1500 if run.tier == "quick" else 40000
     for idx in range(ncase):
         one_case(run, run.seed, idx, mods, libs)
+    # long peak lists, many repetitions, many threads: counts must never depend on the schedule
+    r = rng(run.seed, "C06", "stress")
+    for k in range(6 if run.tier == "quick" else 40):
+        n = int([4097, 8192, 20000, 65536][k % 4])
+        ubi = np.ascontiguousarray(np.linalg.inv(xtal.random_rotation(r) @ xtal.Bmat(xtal.random_cell(r, "cubic", 3, 6))))
+        gv = np.ascontiguousarray(r.uniform(-1.5, 1.5, (n, 3)))
+        d2, _, _ = ref_drlv2(ubi, gv)
+        tol = 0.3
+        bw = band(tol, 10.0)
+        lo = int((d2 < tol * tol - bw).sum())
+        hi = int((d2 < tol * tol + bw).sum())
+        for nt in (2, 4, 16, 64):
+            cImageD11.cimaged11_omp_set_num_threads(nt)
+            for rep in range(150 if run.tier == "quick" else 600):
+                c = int(cImageD11.score(ubi, gv, tol))
+                run.count("score_stress_calls")
+                if not lo <= c <= hi:
+                    run.violation("score:schedule-dependent", "cImageD11.score returned %d for %d peaks on repetition %d with %d "
+                                  "threads, reference interval [%d,%d]" % (c, n, rep, nt, lo, hi), dict(index=-1, n=n, threads=nt))
+                    break
+    cImageD11.cimaged11_omp_set_num_threads(4)
+    import os
+    if not os.environ.get("VERIF_ASAN_RERUN"):
+        from .. import sched_kernels
+        sched_kernels.attach(run, ["score", "score_and_refine", "refine_assigned"], 24 if run.tier == "quick" else 240,
+                             [[1, 0], [2, 1], [4, 1], [8, 1]], "closest")
+        run.require_counter("sched_determinism_comparisons", 20)
     run.require_counter("refined_matrices_checked", 100)
     run.require_counter("singular_cases", 10)
     run.require_counter("singular_UB_cases", 5)
